@@ -257,7 +257,9 @@ Boolean FloatRangeCheck(Double Wert, FloatType Typ) {
     /**   if (Typ == FloatDec) && (fabs(Wert) > 1e1000) WrError(ErrNum_BigDecFloat);**/
 }
 
-Boolean SingleBit(LargeInt Inp, LargeInt* Erg) {
+Boolean SingleBit(LargeInt SInp, LargeInt* Erg) {
+    LargeWord Inp = (LargeWord)SInp; /* shift zeros in, also for bit 63 */
+
     *Erg = 0;
     do {
         if (!Odd(Inp)) {
